@@ -264,4 +264,57 @@ Section BmpReader.
     - destruct bottomup; [|rewrite rev_length]; exact Ln.
     - intro C. destruct bottomup; [|apply Forall_rev]; apply Cl; exact C.
   Qed.
+
+  (* cjpeg's path: preload into the virtual array, then serve rows top-down *)
+  Lemma bmp_preload_spec hd n : forall s, bytes s ->
+    match bmp_preload hd n s with
+    | BOk bufs => length bufs = n /\ Forall (fun buf => bytes buf /\ length buf = Z.to_nat (b_roww hd)) bufs
+    | BErr e => e = B_EOF
+    end.
+  Proof.
+    induction n as [|n IH]; intros s B; cbn [bmp_preload]; [split; [reflexivity|constructor]|].
+    unfold bbind. pose proof (take_spec (b_roww hd) s) as T.
+    destruct (take (b_roww hd) s) as [[buf s1]|e]; [|exact T]. destruct T as [-> L].
+    apply bytes_app in B. destruct B as [Bb B1]. specialize (IH s1 B1).
+    destruct (bmp_preload hd n s1) as [rest|e]; [|exact IH]. destruct IH as [Ln Fn].
+    split; [cbn; lia|constructor; auto].
+  Qed.
+
+  Lemma bmp_serve_spec hd bufs : bhdr_ok hd ->
+    Forall (fun buf => bytes buf /\ length buf = Z.to_nat (b_roww hd)) bufs ->
+    match bmp_serve cmyk hd bufs with
+    | BOk rows => length rows = length bufs /\
+        (bclaim (b_t hd) ->
+         Forall (fun row => Forall byte row /\ length row = (Z.to_nat (b_w hd) * Z.to_nat (target_ps (b_t hd)))%nat) rows)
+    | BErr e => bsafe e
+    end.
+  Proof.
+    intros Hh. pose proof Hh as (Hw & _ & _ & _ & Hrw & _).
+    induction bufs as [|buf t IH]; intro F; cbn [bmp_serve]; [split; [reflexivity|constructor]|].
+    inversion F as [|? ? [Bb Lb] Ft]; subst. unfold bbind.
+    pose proof (bmp_pixels_spec hd (Z.to_nat (b_w hd)) buf Hh Bb ltac:(lia)) as P.
+    destruct (bmp_pixels cmyk hd _ buf) as [row|e]; [|exact P].
+    specialize (IH Ft). destruct (bmp_serve cmyk hd t) as [rows|e]; [|exact IH]. destruct IH as [Ln Cl].
+    split; [cbn; lia|]. intro C. constructor; [apply P; auto|apply Cl; auto].
+  Qed.
+
+  Theorem load_bmp_cj_spec maxpixels s : bytes s ->
+    match load_bmp_cj cmyk maxpixels s with
+    | BOk (w, h, t, rows) =>
+      1 <= w /\ 1 <= h /\ (maxpixels = 0 \/ w * h <= maxpixels) /\ length rows = Z.to_nat h /\
+      (bclaim t -> Forall (fun row => Forall byte row /\ length row = (Z.to_nat w * Z.to_nat (target_ps t))%nat) rows)
+    | BErr e => bsafe e
+    end.
+  Proof.
+    intros B. unfold load_bmp_cj, bbind.
+    pose proof (bmp_header_spec true maxpixels None s B ltac:(intros; discriminate)) as H.
+    destruct (bmp_header true maxpixels None s) as [[hd s1]|e]; [|exact H].
+    destruct H as (Hh & B1 & Lim & _ & _).
+    pose proof (bmp_preload_spec hd (Z.to_nat (b_h hd)) s1 B1) as P.
+    destruct (bmp_preload hd _ s1) as [bufs|e]; [|subst; discriminate]. destruct P as [Ln Fb].
+    pose proof (bmp_serve_spec hd (rev bufs) Hh ltac:(apply Forall_rev; exact Fb)) as S.
+    destruct (bmp_serve cmyk hd (rev bufs)) as [rows|e]; [|exact S]. destruct S as [Lr Cl].
+    destruct Hh as (H1 & H2 & _). rewrite rev_length in Lr.
+    split; [exact H1|]. split; [exact H2|]. split; [exact Lim|]. split; [lia|exact Cl].
+  Qed.
 End BmpReader.
